@@ -153,8 +153,15 @@ class Ctx:
             else:
                 bad = [o for o in obs if o["status"] == "unsat"]
             if bad:
-                raise RuntimeError("vacuity probe %s was discharged: contract or encoding of %s is contradictory"
-                                   % (bad[0]["name"], fn))
+                # Nothing may be concluded from obligations whose hypotheses are contradictory: the function counts as
+                # unproved and its "discharged" obligations are voided.  On the unchanged tree this never happens (it
+                # would show as UNPROVED and lower the reported level); after a code change it can, e.g. when an
+                # assertion of the changed code can no longer hold on the probed paths.
+                self.mark_unproved(fn, "vacuity probe discharged (%s): no conclusion is drawn from this function's obligations"
+                                   % bad[0]["name"][:120])
+                for o in self.obligations:
+                    if o["function"] == fn and not o["probe"] and o["status"] == "unsat":
+                        o["status"] = "void"
 
     def _triage(self, ob):
         if ob["probe"]:
